@@ -9,6 +9,9 @@ import (
 	sdk "github.com/cosmos/cosmos-sdk/types"
 
 	ammtypes "github.com/elys-network/elys/x/amm/types"
+	assetprofiletypes "github.com/elys-network/elys/x/assetprofile/types"
+	parametertypes "github.com/elys-network/elys/x/parameter/types"
+	tokenomicstypes "github.com/elys-network/elys/x/tokenomics/types"
 	burnertypes "github.com/elys-network/elys/x/burner/types"
 	estakingtypes "github.com/elys-network/elys/x/estaking/types"
 	leveragelptypes "github.com/elys-network/elys/x/leveragelp/types"
@@ -99,6 +102,10 @@ func (a *GovEdgeAgent) Step(s *Sim) {
 		}
 	}
 	if s.Height < 10 || a.sent >= 40 || r.Float64() >= s.Cfg.rate("govedge")*0.5 {
+		return
+	}
+	if r.IntN(3) == 0 {
+		a.structural(s)
 		return
 	}
 	src := paramSources[r.IntN(len(paramSources))]
@@ -210,4 +217,121 @@ func (a *GovEdgeAgent) Step(s *Sim) {
 		s.Stats.Inc("govedge/proposed/"+src.name+lf.path+"="+desc, 1)
 		return
 	}
+}
+
+// structural: governance messages that are not a Params struct - pool parameters, pool and asset
+// listings, chain-wide constants, inflation schedules - with valid references and ONE edge in the
+// content; kept only if the message's own ValidateBasic accepts it.
+func (a *GovEdgeAgent) structural(s *Sim) {
+	r := a.rng
+	ctx := s.Ctx()
+	app := s.N0.App
+	gov := s.W.GovAddr.String()
+	var msg sdk.Msg
+	desc := ""
+	pools := app.AmmKeeper.GetAllPool(ctx)
+	switch r.IntN(9) {
+	case 0, 1:
+		if len(pools) == 0 {
+			return
+		}
+		p := pick(r, pools)
+		pp := p.PoolParams
+		switch r.IntN(3) {
+		case 0:
+			pp.SwapFee = sdkmath.LegacyMustNewDecFromStr(pick(r, []string{"0", "0.000000000000000001", "0.5", "0.999999999999999999", "1", "2"}))
+			desc = "amm.UpdatePoolParams.SwapFee=" + pp.SwapFee.String()
+		case 1:
+			pp.UseOracle = !pp.UseOracle
+			desc = fmt.Sprintf("amm.UpdatePoolParams.UseOracle=%v", pp.UseOracle)
+		default:
+			pp.FeeDenom = pick(r, []string{otherDenom(p, DenomUSDC), DenomINC, "unknown"})
+			desc = "amm.UpdatePoolParams.FeeDenom=" + pp.FeeDenom
+		}
+		msg = &ammtypes.MsgUpdatePoolParams{Authority: gov, PoolId: p.PoolId, PoolParams: pp}
+	case 2:
+		lps := app.LeveragelpKeeper.GetAllPools(ctx)
+		if len(lps) == 0 {
+			return
+		}
+		lp := pick(r, lps)
+		if r.IntN(2) == 0 {
+			msg = &leveragelptypes.MsgRemovePool{Authority: gov, Id: lp.AmmPoolId}
+			desc = "leveragelp.RemovePool"
+		} else {
+			msg = &leveragelptypes.MsgAddPool{Authority: gov, Pool: leveragelptypes.AddPool{AmmPoolId: lp.AmmPoolId, LeverageMax: sdkmath.LegacyMustNewDecFromStr(pick(r, []string{"1.000000000000000001", "2", "1000000"}))}}
+			desc = "leveragelp.AddPool(existing)"
+		}
+	case 3:
+		x := pick(r, []uint64{1, 2, 1000, 1 << 62, math.MaxUint64})
+		msg = &parametertypes.MsgUpdateTotalBlocksPerYear{Creator: gov, TotalBlocksPerYear: x}
+		desc = fmt.Sprintf("parameter.TotalBlocksPerYear=%d", x)
+	case 4:
+		x := pick(r, []uint64{1, 60, 1 << 62, math.MaxUint64})
+		msg = &parametertypes.MsgUpdateRewardsDataLifetime{Creator: gov, RewardsDataLifetime: x}
+		desc = fmt.Sprintf("parameter.RewardsDataLifetime=%d", x)
+	case 5:
+		// an asset-profile entry owned by governance: decimals or the commit/withdraw switches change
+		base := pick(r, []string{DenomATOM, DenomUSDC, DenomINC, DenomELYS})
+		e, found := app.AssetprofileKeeper.GetEntry(ctx, base)
+		if !found {
+			return
+		}
+		m := &assetprofiletypes.MsgUpdateEntry{Authority: gov, BaseDenom: e.BaseDenom, Decimals: e.Decimals, Denom: e.Denom, Path: e.Path, IbcChannelId: e.IbcChannelId,
+			IbcCounterpartyChannelId: e.IbcCounterpartyChannelId, DisplayName: e.DisplayName, DisplaySymbol: e.DisplaySymbol, Network: e.Network, Address: e.Address,
+			ExternalSymbol: e.ExternalSymbol, TransferLimit: e.TransferLimit, Permissions: e.Permissions, UnitDenom: e.UnitDenom, IbcCounterpartyDenom: e.IbcCounterpartyDenom,
+			IbcCounterpartyChainId: e.IbcCounterpartyChainId, CommitEnabled: e.CommitEnabled, WithdrawEnabled: e.WithdrawEnabled}
+		switch r.IntN(3) {
+		case 0:
+			m.Decimals = pick(r, []uint64{6, 8, 18})
+			desc = fmt.Sprintf("assetprofile.UpdateEntry(%s).Decimals=%d", base, m.Decimals)
+		case 1:
+			m.CommitEnabled = !m.CommitEnabled
+			desc = fmt.Sprintf("assetprofile.UpdateEntry(%s).CommitEnabled=%v", base, m.CommitEnabled)
+		default:
+			m.WithdrawEnabled = !m.WithdrawEnabled
+			desc = fmt.Sprintf("assetprofile.UpdateEntry(%s).WithdrawEnabled=%v", base, m.WithdrawEnabled)
+		}
+		msg = m
+	case 6:
+		base := pick(r, []string{DenomINC, DenomATOM, DenomTIA, DenomUSDC})
+		msg = &assetprofiletypes.MsgDeleteEntry{Authority: gov, BaseDenom: base}
+		desc = "assetprofile.DeleteEntry(" + base + ")"
+	case 7:
+		d := pick(r, []string{DenomATOM, DenomTIA, DenomUSDC, DenomELYS})
+		msg = &oracletypes.MsgRemoveAssetInfo{Authority: gov, Denom: d}
+		desc = "oracle.RemoveAssetInfo(" + d + ")"
+	default:
+		x := pick(r, []uint64{0, 1, 1 << 40, 1 << 62, math.MaxUint64})
+		inf := &tokenomicstypes.InflationEntry{LmRewards: x, IcsStakingRewards: x, CommunityFund: 1, StrategicReserve: 1, TeamTokensVested: 1}
+		if r.IntN(2) == 0 {
+			msg = &tokenomicstypes.MsgUpdateGenesisInflation{Authority: gov, Inflation: inf, SeedVesting: 1, StrategicSalesVesting: 1}
+			desc = fmt.Sprintf("tokenomics.GenesisInflation=%d", x)
+		} else {
+			msg = &tokenomicstypes.MsgCreateTimeBasedInflation{Authority: gov, StartBlockHeight: uint64(s.Height + 3), EndBlockHeight: uint64(s.Height + 40), Description: "sim", Inflation: inf}
+			desc = fmt.Sprintf("tokenomics.TimeBasedInflation=%d", x)
+		}
+	}
+	if msg == nil {
+		return
+	}
+	ok := true
+	func() {
+		defer func() {
+			if recover() != nil {
+				ok = false
+			}
+		}()
+		if vb, is := msg.(sdk.HasValidateBasic); is && vb.ValidateBasic() != nil {
+			ok = false
+		}
+	}()
+	if !ok {
+		s.Stats.Inc("govedge/rejected_by_validation", 1)
+		return
+	}
+	s.Gov.Propose(msg)
+	a.sent++
+	s.Stats.Inc("govedge/proposed", 1)
+	s.Stats.Inc("govedge/proposed/"+desc, 1)
 }
